@@ -226,7 +226,7 @@ Qed.
 Lemma step_pf : forall c s e, pidconf c = true -> WF s -> PF s -> PF (step c s e).
 Proof.
   intros c s e Pc W P. pose proof W as [Wa Wb Wne [A1 _] [B1 _] _].
-  destruct e as [x|x|x|x|x|x]; unfold step.
+  destruct e as [x|x|x|x|x|x|x code]; unfold step.
   - (* USR2 *)
     destruct (negb (m_alive (get s x))) eqn:Al; auto.
     destruct (negb (m_reexec (get s x) =? 0)) eqn:Rx; auto.
@@ -303,6 +303,12 @@ Proof.
     + rewrite get_put_same. apply (holds_ext s _ (get s x) _); auto. intros n. apply fs_get_putm.
     + rewrite get_put_other. apply (holds_ext s _ (get s (other x)) _); auto. intros n. apply fs_get_putm.
     + intros n q H. rewrite fs_get_putm in H. rewrite next_pid_put. eauto.
+  - (* Halt *)
+    destruct (m_alive (get s x)) eqn:Al; auto.
+    apply do_exit_pf; auto.
+    + destruct x; simpl; auto.
+    + apply pf_get; auto.
+    + destruct P; auto.
 Qed.
 
 Lemma init_pf : forall c, pidconf c = true -> PF (init c).
